@@ -7,7 +7,8 @@ import fitcase
 
 PROP = 'C01'
 MODEL_OPS = 'FitModel.fit2_pkg (get_av_m, get_log_fluxes_m, linreg_m, clamp, optscale, chi2_m)'
-RULE = ('v1 aperture-independent packages written as convolved/*.fits + models.conf and fitted through Fitter/Models.read/Extinction.get_av/Models.fit: '
+RULE = ('60 (1200) function-level cases: fitting_routines.linear_regression / optimal_scaling / chi_squared and Source.get_log_fluxes called directly on random arrays and compared with linreg_m / optscale_*_m / chi2_m / get_log_fluxes_m; '
+        'v1 aperture-independent packages written as convolved/*.fits + models.conf and fitted through Fitter/Models.read/Extinction.get_av/Models.fit: '
         '2-6 bands, 1-8 models, flags over {0,1,2,3,4,9} with >=2 fitted bands, fluxes over 8 decades, relative errors 0.5-50%, confidences {0,(0,1),1}, '
         'extinction tables of 2-50 rows (filters sometimes outside the table), A_V ranges interior / clamping low / clamping high / lo==hi / narrow. '
         'non-trivial = non-singular regression (condition number < 1e8) with at least one model; distinct = distinct inputs.')
@@ -20,15 +21,67 @@ ALLOWED_AXIOMS = ('ClassicalDedekindReals.sig_forall_dec', 'FunctionalExtensiona
 
 def generate(tier, seed):
     rng = Rng(seed * 65537 + 1)
-    return [fitcase.gen_case(rng, '2d') for _ in range(300 if tier == 'quick' else 6000)]
+    cases = [fitcase.gen_case(rng, '2d') for _ in range(300 if tier == 'quick' else 6000)]
+    # function-level correspondence: fitting_routines.* and Source.get_log_fluxes called directly on random arrays
+    for _ in range(60 if tier == 'quick' else 1200):
+        nb, nm = rng.randint(2, 6), rng.randint(1, 5)
+        flags = [rng.choice([1, 1, 4, 2, 3, 0, 9]) for _ in range(nb)]
+        if sum(1 for f in flags if f in (1, 4)) < 2:
+            flags[0], flags[1] = 1, 4
+        src = fitcase.gen_source(rng, nb, flags=flags)
+        cases.append(dict(kind='unit', src=src, a=[rng.dyadic(-1.5, 0.0, 8) for _ in range(nb)], s=[rng.choice([-2.0, rng.dyadic(-3, 3, 6)]) for _ in range(nb)],
+                          lm=[[rng.dyadic(-3, 3, 10) for _ in range(nb)] for _ in range(nm)], av=[rng.dyadic(0, 10, 8) for _ in range(nm)], sc=[rng.dyadic(-2, 2, 8) for _ in range(nm)]))
+    return cases
 
 
-impl = fitcase.impl_fit
-shrink = fitcase.shrink
+def _impl_unit(case):
+    import numpy as np
+    from sedfitter import fitting_routines as fr
+    s = fitcase.make_source(case['src'])
+    w, lf, le = s.get_log_fluxes()
+    a, sp = np.array(case['a']), np.array(case['s'])
+    lm = np.array(case['lm'])
+    resid = lf[np.newaxis, :] - lm
+    fin = np.isfinite(lf) & np.isfinite(le)
+    resid[:, ~fin] = 0.
+    p1, p2 = fr.linear_regression(resid, w, a, sp)
+    osc = fr.optimal_scaling(resid - np.array(case['av'])[:, np.newaxis] * a[np.newaxis, :], w, sp)
+    oav = fr.optimal_scaling(resid, w, a)
+    model = np.array(case['av'])[:, np.newaxis] * a[np.newaxis, :] + np.array(case['sc'])[:, np.newaxis] * sp[np.newaxis, :]
+    le2 = np.where(fin, le, 0.)
+    chi = fr.chi_squared(s.valid, resid, le2, w, model)
+    return dict(w=[float(x) for x in w], lf=[float(x) for x in lf], le=[float(x) for x in le], p1=[float(x) for x in p1], p2=[float(x) for x in p2],
+                osc=[float(x) for x in osc], oav=[float(x) for x in oav], chi=[float(x) for x in chi])
 
 
-def model_requests(case):
-    return [fitcase.model_request(case)]
+def impl(case):
+    if case.get('kind') == 'unit':
+        return _impl_unit(case)
+    return fitcase.impl_fit(case)
+
+
+def shrink(case):
+    return [] if case.get('kind') == 'unit' else fitcase.shrink(case)
+
+
+MODEL_NEEDS_IMPL = True
+
+
+def model_requests(case, im=None):
+    if case.get('kind') != 'unit':
+        return [fitcase.model_request(case)]
+    reqs = [('get_log_fluxes', [fitcase.raws(case['src'])])]
+    if not isinstance(im, dict) or 'w' not in im:
+        return reqs
+    import math
+    # rows as the implementation's own transformed bands (exact doubles), so that the regression ops are compared on identical inputs
+    for k, lm in enumerate(case['lm']):
+        rows = []
+        for j, f in enumerate(case['src']['flags']):
+            ok = math.isfinite(im['lf'][j]) and math.isfinite(im['le'][j])
+            rows.append([f, F(im['lf'][j]) if ok else F(lm[j]), F(im['le'][j]) if ok else F(0), F(im['w'][j]), F(case['a'][j]), F(case['s'][j]), F(lm[j])])
+        reqs += [('linreg', [rows]), ('optscale_sc', [F(case['av'][k]), rows]), ('optscale_av', [rows]), ('chi2', [rows, F(case['av'][k]), F(case['sc'][k])])]
+    return reqs
 
 
 def conditioning(case):
@@ -41,7 +94,45 @@ def conditioning(case):
     return bands, ks, (float(m11 * m22 / det) if det > 0 else math.inf)
 
 
+def _judge_unit(case, im, mo):
+    import math
+    tags = ['kind=unit']
+    if 'exc' in im:
+        return dict(disagree=['implementation raised ' + im['msg']], fail=[], nontrivial=False, tags=tags)
+    if any(isinstance(m, tuple) for m in mo):
+        return dict(disagree=['driver %r' % ([m for m in mo if isinstance(m, tuple)][:1],)], fail=[], nontrivial=False)
+    dis = []
+    for j, (b, f) in enumerate(zip(mo[0], case['src']['flags'])):
+        if f in (1, 2, 3, 4):
+            for name, got, want in (('weight', im['w'][j], b[1]), ('log flux', im['lf'][j], b[2]), ('log error', im['le'][j], b[3])):
+                if not close(got, want, 1e-12, 1e-15):
+                    dis.append('get_log_fluxes band %d (flag %d) %s: implementation %r model %r' % (j, f, name, got, float(want)))
+        elif im['w'][j] != 0.0:
+            dis.append('get_log_fluxes band %d (flag %d): weight %r' % (j, f, im['w'][j]))
+    for k in range(len(case['lm'])):
+        lr, osc, oav, chi = mo[1 + 4 * k: 5 + 4 * k]
+        rt = 1e-7
+        if not (close(im['p1'][k], lr[0], rt, rt) and close(im['p2'][k], lr[1], rt, rt)):
+            dis.append('linear_regression model %d: implementation (%r, %r) model (%r, %r)' % (k, im['p1'][k], im['p2'][k], float(lr[0]), float(lr[1])))
+        if not close(im['osc'][k], osc, 1e-9, 1e-9):
+            dis.append('optimal_scaling(scale) model %d: %r vs %r' % (k, im['osc'][k], float(osc)))
+        if not close(im['oav'][k], oav, 1e-9, 1e-9):
+            dis.append('optimal_scaling(av) model %d: %r vs %r' % (k, im['oav'][k], float(oav)))
+        ci, cm = fitcase.canon_chi(im['chi'][k]), fitcase.canon_chi(chi)
+        # skip limit near-ties
+        tie = False
+        for j, f in enumerate(case['src']['flags']):
+            if f in (2, 3) and math.isfinite(im['lf'][j]):
+                d = abs((im['lf'][j] - case['lm'][k][j]) - (case['av'][k] * case['a'][j] + case['sc'][k] * case['s'][j]))
+                tie = tie or d < 1e-9
+        if not tie and ((ci == 'HUGE') != (cm == 'HUGE') or (ci != 'HUGE' and not close(ci, cm, 1e-9, 1e-9))):
+            dis.append('chi_squared model %d: %r vs %r' % (k, im['chi'][k], cm if cm == 'HUGE' else float(cm)))
+    return dict(disagree=dis[:4], fail=[], nontrivial=True, tags=tags)
+
+
 def judge(case, im, mo):
+    if case.get('kind') == 'unit':
+        return _judge_unit(case, im, mo)
     tags = ['nb=%d' % len(case['wav']), 'nm=%d' % len(case['names']), 'avr=%s' % ('point' if case['av_range'][0] == case['av_range'][1] else 'range')]
     m = mo[0]
     if isinstance(m, tuple):
